@@ -7,6 +7,7 @@ package turbotunnel
 // /repo is not modified.
 
 import (
+	"fmt"
 	"net"
 	"os"
 	"sort"
@@ -104,6 +105,122 @@ func verifCM(args []string) string {
 		default:
 			return "!badop"
 		}
+	}
+	return wire.PrintList(out)
+}
+
+// ---------------------------------------------------------------- cmb: MANY clients, explicit clock
+//
+// "turbotunnel cmb <timeout> <ops>": inner.SendQueue / inner.removeExpired as for cm, with bulk operations and a
+// summary of the map after every operation (count boundaries of a sweep: 1025, 2048, 5000 records expired at once):
+//
+//	S<lo>-<hi>@<now>:<m>   SendQueue(a, now + (a mod m)) for a = lo..hi
+//	s<addr>@<now> | e<now>  as for cm
+//
+// answer per operation: n<len(byAge)>/<addresses in byAddr, as ranges>/<identities of the closed queues, as ranges>
+// (!index appended when byAddr and byAge disagree).  The queues stay empty: a closed channel is always ready to be
+// received from, an open empty one is not.
+
+func verifRanges(l []int) string {
+	sort.Ints(l)
+	var out []string
+	for i := 0; i < len(l); {
+		j := i
+		for j+1 < len(l) && l[j+1] == l[j]+1 {
+			j++
+		}
+		if j == i {
+			out = append(out, strconv.Itoa(l[i]))
+		} else {
+			out = append(out, strconv.Itoa(l[i])+"-"+strconv.Itoa(l[j]))
+		}
+		i = j + 1
+	}
+	if len(out) == 0 {
+		return "e"
+	}
+	return strings.Join(out, ".")
+}
+
+func verifCMB(args []string) string {
+	tmo, err := strconv.ParseInt(args[0], 10, 64)
+	if err != nil {
+		return "!badcase"
+	}
+	timeout := time.Duration(tmo) * time.Millisecond
+	base := time.Unix(1700000000, 0)
+	at := func(v int64) time.Time { return base.Add(time.Duration(v) * time.Millisecond) }
+	inner := &clientMapInner{byAge: make([]*clientRecord, 0), byAddr: make(map[net.Addr]int)}
+	qid := map[chan []byte]int{}
+	var queues []chan []byte
+	closed := map[int]bool{}
+	send := func(a int, now int64) {
+		ch := inner.SendQueue(verifAddr(a), at(now))
+		if _, ok := qid[ch]; !ok {
+			qid[ch] = len(queues)
+			queues = append(queues, ch)
+		}
+	}
+	dump := func() string {
+		var addrs []int
+		bad := len(inner.byAddr) != len(inner.byAge)
+		for a, i := range inner.byAddr {
+			addrs = append(addrs, int(a.(verifAddr)))
+			if i < 0 || i >= len(inner.byAge) || inner.byAge[i].Addr != a {
+				bad = true
+			}
+		}
+		var dead []int
+		for id, ch := range queues {
+			if !closed[id] {
+				// a closed channel is always ready to be received from; an open empty one is not
+				select {
+				case _, ok := <-ch:
+					if !ok {
+						closed[id] = true
+					}
+				default:
+				}
+			}
+			if closed[id] {
+				dead = append(dead, id)
+			}
+		}
+		r := "n" + strconv.Itoa(len(inner.byAge)) + "/" + verifRanges(addrs) + "/" + verifRanges(dead)
+		if bad {
+			r += "!index"
+		}
+		return r
+	}
+	var out []string
+	for _, t := range wire.List(args[1]) {
+		switch t[0] {
+		case 'S':
+			var lo, hi int
+			var now, m int64
+			if n, _ := fmt.Sscanf(t, "S%d-%d@%d:%d", &lo, &hi, &now, &m); n != 4 || m < 1 || hi < lo {
+				return "!badop"
+			}
+			for a := lo; a <= hi; a++ {
+				send(a, now+int64(a)%m)
+			}
+		case 's':
+			var a int
+			var now int64
+			if n, _ := fmt.Sscanf(t, "s%d@%d", &a, &now); n != 2 {
+				return "!badop"
+			}
+			send(a, now)
+		case 'e':
+			now, err := strconv.ParseInt(t[1:], 10, 64)
+			if err != nil {
+				return "!badop"
+			}
+			inner.removeExpired(at(now), timeout)
+		default:
+			return "!badop"
+		}
+		out = append(out, dump())
 	}
 	return wire.PrintList(out)
 }
@@ -443,6 +560,9 @@ func TestVerifDriver(t *testing.T) {
 	wire.Loop(func(args []string) string {
 		if len(args) >= 3 && args[0] == "cm" {
 			return verifCM(args[1:])
+		}
+		if len(args) >= 3 && args[0] == "cmb" {
+			return verifCMB(args[1:])
 		}
 		if len(args) >= 4 && args[0] == "qm" {
 			return verifQM(args[1:])
